@@ -28,8 +28,8 @@ ASSUMPTIONS = [
 ]
 SANITY = ["answers_value_tridonic", "answers_value_hasseb", "answers_value_luba", "answers_value_sci", "answers_err_tridonic",
           "answers_err_hasseb", "answers_none_luba", "answers_value_daliserver", "answers_value_atx", "late_answer_reported_as_no_answer"]
-BOUNDS = {"quick": "single caller: 9 kinds x 7 outcomes at d<=2; pairs: 9 x 3 kinds x 6 outcome pairs at d<=1, 12 selected at d<=2; triples at d<=1",
-          "thorough": "single caller d<=3; all pairs d<=2; selected pairs d<=3; triples d<=2"}
+BOUNDS = {"quick": "single caller: 9 kinds x 7 outcomes at d<=2; pairs: 9 x 3 kinds x 6 outcome pairs at d<=1, 12 selected at d<=2; triples at d<=1; 3 queued callers with the middle one cancelled (4 triples x 2 outcome sets, d<=1); 3 commands as one sequence (4 x 3, d<=2)",
+          "thorough": "single caller d<=3; all pairs d<=2; selected pairs d<=3; triples d<=2; cancel-the-middle-caller d<=2; sequence mode d<=3"}
 
 KINDS = ["off", "yn", "num", "bits", "gen", "dt", "twice", "q24", "c24"]
 OUTS = [("none",), ("value", 0), ("value", 1), ("value", 0x42), ("value", 254), ("value", 255), ("err",)]
